@@ -288,6 +288,29 @@ def run(ctx: core.Check, cases=None):
         cases = gen_cases(ctx)
     reqs = [f"bin {op} {wire(l)} {wire(r)}" for (_, op, l, r, _) in cases]
     replies = core.model_batch("C01", reqs)
+    # unary minus (used by every subtraction of p-boxes and by the sign flips): exhaustive grid + arrays
+    negs = [("I", a, b) for a, b in grid_intervals()]
+    for _ in range(ctx.scale(100, 1000)):
+        xs = [ctx.rng.choice(grid_intervals()) for _ in range(ctx.rng.choice([1, 2, 4]))]
+        negs.append(("A", [x[0] for x in xs], [x[1] for x in xs]))
+    nrep = core.model_batch("C01", [f"neg {wire(d)}" for d in negs])
+    for d, rep in zip(negs, nrep):
+        ctx.count(("neg", d), True, "neg")
+        try:
+            impl = canon_impl(-build(d))
+        except BaseException as e:  # noqa
+            impl = ("err", err_kind(e))
+        model = parse_model(rep)
+        if same(impl, model, True, 1):
+            ctx.tie_ok()
+        else:
+            ctx.tie_bad("neg", {"op": "neg", "x": d}, _js(impl), _js(model))
+        _, xs = as_ivls(d)
+        exp = ("ok", "I" if d[0] == "I" else "A", [-b for a, b in xs], [-a for a, b in xs])
+        if not same(impl, exp, True, 1):
+            ctx.fail({"op": "neg", "lkind": d[0], "rkind": "-", "symptom": "value" if impl[0] == "ok" else "raises:" + impl[1],
+                      "call": "Interval.__neg__"}, {"op": "neg", "x": d, "impl": _js(impl), "expected": _js(exp)},
+                     f"-{d}: implementation gives {_js(impl)}, exact image is {_js(exp)}")
     for (stream, op, l, r, exact), rep in zip(cases, replies):
         ctx.count((op, l, r), nontrivial(op, l, r), stream)
         impl = run_impl(op, l, r)
